@@ -11,24 +11,18 @@ Variable prec emax : Z.
 Context (Hp : Prec_gt_0 prec) (Hpe : Prec_lt_emax prec emax).
 Notation float := (binary_float prec emax).
 
-(* M = 2^emax bounds every finite float; +-inf are sent to +-M. *)
-Definition M : R := bpow radix2 emax.
+(* M = 2^emax bounds every finite float; +-inf are sent to +-M (GuardSpec.M, GuardSpec.ext). *)
+Notation M := (M emax).
+Notation ext := (ext prec emax).
 Lemma M_gt_1 : 1 < M.
 Proof.
-  unfold M. change 1 with (bpow radix2 0). apply bpow_lt.
+  unfold GuardSpec.M. change 1 with (bpow radix2 0). apply bpow_lt.
   unfold Prec_gt_0, Prec_lt_emax in *. lia.
 Qed.
 
-Definition ext (x : float) : R :=
-  match x with
-  | B754_infinity false => M
-  | B754_infinity true => - M
-  | _ => B2R x
-  end.
-
 Lemma finite_bound (x : float) : is_finite x = true -> - M < B2R x < M.
 Proof.
-  intros F. generalize (abs_B2R_lt_emax prec emax x). fold M.
+  intros F. generalize (abs_B2R_lt_emax prec emax x). fold (GuardSpec.M emax).
   intros H. apply Rabs_lt_inv in H. exact H.
 Qed.
 
@@ -41,17 +35,17 @@ Proof.
     destruct x as [|[|]| |]; destruct y as [|[|]| |]; try discriminate; reflexivity.
   - pose proof (finite_bound x Fx) as Bx.
     destruct y as [|[|]| |]; try discriminate;
-    destruct x as [|[|]| |]; try discriminate; unfold Bcompare, ext; simpl;
+    destruct x as [|[|]| |]; try discriminate; unfold Bcompare, GuardSpec.ext; simpl;
     f_equal; symmetry;
     first [ apply Rcompare_Lt; simpl in Bx; lra | apply Rcompare_Gt; simpl in Bx; lra ].
   - pose proof (finite_bound y Fy) as By.
     destruct x as [|[|]| |]; try discriminate;
-    destruct y as [|[|]| |]; try discriminate; unfold Bcompare, ext; simpl;
+    destruct y as [|[|]| |]; try discriminate; unfold Bcompare, GuardSpec.ext; simpl;
     f_equal; symmetry;
     first [ apply Rcompare_Lt; simpl in By; lra | apply Rcompare_Gt; simpl in By; lra ].
   - pose proof M_gt_1.
     destruct x as [|[|]| |]; try discriminate;
-    destruct y as [|[|]| |]; try discriminate; unfold Bcompare; simpl; f_equal; symmetry;
+    destruct y as [|[|]| |]; try discriminate; unfold Bcompare, GuardSpec.ext; simpl; f_equal; symmetry;
     first [ apply Rcompare_Eq; lra | apply Rcompare_Lt; lra | apply Rcompare_Gt; lra ].
 Qed.
 
@@ -119,8 +113,6 @@ Proof. reflexivity. Qed.
 
 End Fmt.
 
-Arguments M : simpl never.
-Arguments ext : simpl never.
 
 (* ---- agrees / spec_of ---------------------------------------------------------------------- *)
 Lemma agrees_unspecified_ok : agrees GOk Unspecified.
